@@ -56,6 +56,12 @@ def mk_env(rng):
     # what an earlier build left behind at the artefact paths
     if rng.chance(1, 3):
         env["dirty"] = {"kind": rng.choice(["longer", "shorter", "other_program", "garbage"]), "fill": rng.hexbytes(8)}
+    # a project directory that has been lived in: an older revision of the failing project was really run or compiled here,
+    # maybe killed, before the sources became what they are (a stream of its own)
+    lv = core.Rng(core.derive(int(env["seed"][:16], 16), "lived"))
+    if lv.chance(1, 8) and not env.get("hard") and env.get("start") != "gone":
+        import pipeline as _pl
+        env["dirty"] = _pl.gen_lived(lv)
     # crash and restart: the failing command was started once before and killed at a planned call (while writing or loading
     # bytecode, in the middle of the program's output, in the middle of the report); then it is started again.  A stream of
     # its own, so that the other choices stay what they were
@@ -173,8 +179,10 @@ def run_case(case):
     stack = [[m, pre + f, n] for m, f, n in stack] if (sub or gone) else stack
     if env.get("dirty"):
         import pipeline
-        pipeline.place_dirty(world, env, pipeline.module_artefacts(files, lpre + "main.ms"))
+        pipeline.place_dirty(world, env, pipeline.module_artefacts(files, lpre + "main.ms"), sources=files, live=(world, lpre + "main.ms"))
     procs = []
+    if env.get("dirty"):
+        procs.extend(pipeline.take_lived())
     crash = [env["crash"]] if env.get("crash") else None
     if env["mode"] == "run":
         if crash:
